@@ -78,6 +78,7 @@ def scalar_identity_sweep(ctx):
 
 ARR = ["AUtf8", "ANUtf8", "ABool", "ANBool", "AInt", "AFloat", "ANInt", "AStruct"]
 PYS = ["PInt", "PFloat", "PBool", "PStr"]
+ARR_MORE = ["AUInt8", "AUInt32", "AInt8", "AFloat32", "ANUInt8", "ANFloat"]      # narrow / unsigned / nullable numeric operands (one-operand functions)
 NUMERIC1 = ["sum", "prod", "mean", "var", "std", "cumulative_sum", "min", "max", "sort", "argsort", "argmax", "argmin"]
 TAKES_DTYPE = ["sum", "prod", "cumulative_sum", "var", "std", "mean"]     # filtered against the real signatures at run time
 
@@ -85,8 +86,8 @@ TAKES_DTYPE = ["sum", "prod", "cumulative_sum", "var", "std", "mean"]     # filt
 def func_calls():
     calls = []
     for f in NUMERIC1:
-        for a in ARR:
-            for kw in [None, "AFloat", "AInt", "AUtf8"]:
+        for a in ARR + ARR_MORE:
+            for kw in [None, "AFloat", "AInt", "AUtf8", "ANUtf8"]:
                 if kw is not None and f not in TAKES_DTYPE:
                     continue
                 calls.append({"f": f, "args": [a], "kw": kw})
